@@ -3314,7 +3314,20 @@ def _translate_fragment(self):
     blk["tail"] = N("fragresult", sel["end"], names=list(fr["result"]))
     self.notes.append(f"FRAGMENT of `{k['fn']}` ({k['file']}:{it['line0']}-{it['line1']}): source lines {sel['start']}-{sel['end']}; "
                       f"parameters = the variables the stretch reads ({', '.join(n for n, _ in fr['params'])}); result = ({', '.join(fr['result'])})")
-    lines, ty = self.captured(blk, "fn", env, None)
+    # `mut_params`: parameters standing for places the stretch ASSIGNS (`current_epoch.id = …` after `subst`):
+    # `let mut` locals of the stretch's own linear region, so the ordinary assignment rule applies to them
+    mut = set(fr.get("mut_params", []))
+    if not mut <= set(env):
+        raise U(sel["start"], "a mutable parameter is not a parameter")
+    self.mutable |= mut
+    saved_out, self.out = self.out, []
+    saved_assignable, self.assignable = self.assignable, set(mut)
+    try:
+        lines, ty = self.block_term(blk, "fn", dict(env), None)
+        lines = self.out + lines
+    finally:
+        self.out = saved_out
+        self.assignable = saved_assignable
     inner = ty[1] if isinstance(ty, tuple) and ty[0] == "res" else ty
     self.ret = ("res", inner)
     self.params, self.ret_inner = params, inner
@@ -3426,6 +3439,40 @@ KERNELS += [
          types={"PairType": "PairType", "Asset": "Asset"}, modules={"helpers": PAIR_HELPERS},
          props=["C01"], model="the later-deposit branch of WW.Pair.provideShares",
          theorem="WW.KernelsPair.gen_pair_provide_later_shares_eq_model", module="WW.Props.Kernels.Pair"),
+]
+
+# ---- epoch clocks (C20): the epoch manager's `create_epoch` and the fee distributor's `create_new_epoch` --------
+SEM += [
+    R("m", "minus_nanos", ("Timestamp", "u64"), "Timestamp", "psub {0} {1}", "bind",
+      "cosmwasm-std 1.5.4 src/timestamp.rs minus_nanos: `Timestamp(self.0.strict_sub(Uint64::new(subtrahend)))`; uint64.rs strict_sub: panics on underflow (`attempt to subtract with overflow`)"),
+    R("m", "plus_nanos", ("Timestamp", "u64"), "Timestamp", "padd U64MAX {0} {1}", "bind",
+      "src/timestamp.rs plus_nanos: `self.0.strict_add(Uint64::new(addition))`; uint64.rs strict_add: panics above 2^64-1"),
+    R("f", "Timestamp::from_nanos", ("u64",), "Timestamp", "{0}", "pure", "src/timestamp.rs from_nanos: `Timestamp(Uint64::new(nanos_since_epoch))`"),
+    R("bin", "==", ("Uint64", "Uint64"), "bool", "decide ({0} = {1})", "pure", "uint64.rs #[derive(PartialEq, Eq)] on `Uint64(u64)`"),
+]
+EPOCH_MGR_COMMANDS = LH + "epoch-manager/src/commands.rs"
+DIST_COMMANDS = LH + "fee_distributor/src/commands.rs"
+ERROR_TYPES = ERROR_TYPES  # (ContractError is already an error type)
+KERNELS += [
+    dict(lean="epoch_manager_create_epoch_clock", file=EPOCH_MGR_COMMANDS, fn="create_epoch",
+         fragment=dict(start=r"^\s*if env\s*$", end=r"\.plus_nanos\(config\.epoch_config\.duration\.u64\(\)\);",
+                       params=[("now", "Timestamp"), ("epoch_start", "Timestamp"), ("epoch_id", "u64"), ("duration", "Uint64")],
+                       subst=[("env.block.time", "now"), ("current_epoch.start_time", "epoch_start"),
+                              ("current_epoch.id", "epoch_id"), ("config.epoch_config.duration", "duration")],
+                       mut_params=["epoch_start", "epoch_id"],
+                       result=["epoch_id", "epoch_start"]),
+         props=["C20"], model="the clock arithmetic of WW.Epoch.Mgr.createEpoch",
+         theorem="WW.KernelsEpochStep.gen_epoch_manager_create_epoch_clock_eq_model", module="WW.Props.Kernels.EpochStep"),
+    dict(lean="distributor_new_epoch_start", file=DIST_COMMANDS, fn="create_new_epoch",
+         fragment=dict(start=r"^\s*if env\s*$", end=r"^\s*\};\s*$",
+                       params=[("now", "Timestamp"), ("cur_start", "Timestamp"), ("cur_id", "Uint64"), ("duration", "Uint64"),
+                               ("genesis", "Uint64")],
+                       subst=[("env.block.time", "now"), ("current_epoch.start_time", "cur_start"),
+                              ("current_epoch.id", "cur_id"), ("config.epoch_config.duration", "duration"),
+                              ("config.epoch_config.genesis_epoch", "genesis")],
+                       result=["start_time"]),
+         props=["C20"], model="the start-time arithmetic of WW.Epoch.Dist.createNewEpoch",
+         theorem="WW.KernelsEpochStep.gen_distributor_new_epoch_start_eq_model", module="WW.Props.Kernels.EpochStep"),
 ]
 
 # the generated file imports the map primitives next to the number primitives
